@@ -70,7 +70,7 @@ func init() {
 func (p *c07) ID() string { return "C07" }
 func (p *c07) Rule() string {
 	return "graph part (exhaustive, each graph twice: map Fill / struct Fill with a document-style base): page in {p.vuego, sub/p.vuego} x layout of the page in {absent,a,b,base,itself,a.vuego,missing} x layout of layouts/a, layouts/b in {absent,a,b,base,a.vuego,missing} x layouts/base.vuego {absent, present with each option} x sub/a.vuego {absent, present with each option}, pruned to graphs whose unreachable files carry no option (others are skipped duplicates); " +
-		"chain part: straight chains of n layouts, every n in 1..102 plus 150 (thorough: plus 200) for layouts/ placement and a subset (thorough: all) for relative placement with decoys in layouts/, default-base start, and explicit .vuego names; " +
+		"chain part: straight chains of n layouts, every n in 1..102 plus 150 (thorough: plus 200) for layouts/ placement and a subset (thorough: all) for relative placement with decoys in layouts/, default-base start, explicit .vuego names, and names with a dot in them (l1.v3 - with decoy files under the names cut at the dot); " +
 		"cycle part: cycles of length 1-4 entered after 0-3 links x {layouts/, relative, started by the default base, closing through the page, explicit .vuego names, layouts that show `content` twice (the render is stopped and reported when the layout loop passes 16 rounds: left to the depth limit such a cycle would produce 2^100 copies, i.e. not end)}; " +
 		"keys part: for keys ka and title every subset of defining sources {Fill, page front-matter, first layout, second layout} (16x16) x Fill kind {none,map,struct,*struct} x {named chain p->a->b, default chain p->base->a}, other keys and `content` random; " +
 		"appear part: one engine kept over a filesystem in which layouts/base.vuego, a layout next to the page and the second link of a chain appear and disappear between renders (5 histories x Load.Render / RenderFile), compared with a fresh engine on the same files after every change; " +
@@ -175,7 +175,7 @@ func c07ChainSpecs(ctx core.Ctx) []c07ChainSpec {
 		all = append(all, 200)
 	}
 	some := []int{1, 2, 3, 5, 10, 40, 98, 99, 100, 101, 102, 150}
-	for _, pl := range []string{"layouts", "relative", "default", "ext"} {
+	for _, pl := range []string{"layouts", "relative", "default", "ext", "dotted"} {
 		ns := some
 		if pl == "layouts" || ctx.Thorough() {
 			ns = all
@@ -191,6 +191,10 @@ func c07ChainSpecs(ctx core.Ctx) []c07ChainSpec {
 func c07ChainCase(s c07ChainSpec, r *core.RNG) c07Case {
 	c := c07Case{Part: "chain", Shape: s.placement, FillKind: "map", Fill: map[string]string{"ka": "fill:ka", "count": "11"}}
 	name := func(k int) string { return fmt.Sprintf("l%d", k) }
+	if s.placement == "dotted" {
+		// layout names with a dot in them (post.v2): the part after the dot is not an extension
+		name = func(k int) string { return fmt.Sprintf("l%d.v%d", k, 2+k%3) }
+	}
 	dir, pageDir, suffix := "layouts/", "", ""
 	n := s.n
 	switch s.placement {
@@ -226,6 +230,13 @@ func c07ChainCase(s c07ChainSpec, r *core.RNG) c07Case {
 			}
 		}
 		c.Files = append(c.Files, f)
+	}
+	if s.placement == "dotted" {
+		// decoys under the names cut at the dot: they end the chain at once
+		c.Files = append(c.Files, c07File{Path: "layouts/l1.vuego"})
+		if n > 1 {
+			c.Files = append(c.Files, c07File{Path: fmt.Sprintf("layouts/l%d.vuego", n)})
+		}
 	}
 	if s.placement == "relative" {
 		// decoys: an engine that looks into layouts/ first ends the chain early
